@@ -53,6 +53,8 @@ type sessCase struct {
 	Closing bool `json:"closing,omitempty"`
 	// C10 / C19 / C20: a client that has stopped reading (1 take-over, 2 stop, 3 keep-alive), see c20srv.go
 	Stalled int `json:"stalled,omitempty"`
+	// P31: the publisher that does not speak MQTT 5 speaks MQTT 3.1 (protocol level 3), not 3.1.1
+	P31 bool `json:"p31,omitempty"`
 	// C20: that many rounds of "64 clean sessions end their connections at the moment Manager.Stop walks the session map"
 	StopRace int `json:"stoprace,omitempty"`
 }
@@ -140,7 +142,11 @@ func (r *sessRun) startBroker() error {
 	r.b = b
 	r.persist = b.Persist
 	pc := b.Dial()
-	if _, err := pc.Connect(ConnectOpts{ID: "P", Ver: mqttp.ProtocolV311, Clean: true}); err != nil {
+	pver := mqttp.ProtocolV311
+	if r.c.P31 {
+		pver = mqttp.ProtocolV31
+	}
+	if _, err := pc.Connect(ConnectOpts{ID: "P", Ver: pver, Clean: true}); err != nil {
 		return fmt.Errorf("publisher: %v", err)
 	}
 	r.pub = pc.Auto(false)
